@@ -10,6 +10,7 @@ import sys, os, re
 sys.path.insert(0, os.path.dirname(os.path.abspath(__file__)))
 import vlib
 from tr_c02_clib import *
+import tr_c02_smt as SMT
 
 MEMBER_TYPES_EXPECT = {'i': 'int64_t', 'u': 'uint64_t', 'f': 'float', 'd': 'double', 'ld': 'long double', 'a': 'void *'}
 
@@ -44,6 +45,8 @@ class Exec:
         self.funcs = {}
         self.effects = []
         self.cond = None
+        self.state = {}          # interpreter state variables (other than the two classic flag names) written by this case
+        self.statevars = None    # name -> (operand index >= 10, ctype), the integer locals of eval() itself
         self.typedefs = {'MIR_val_t', 'code_t', 'MIR_context_t', 'MIR_insn_t', 'MIR_item_t', 'func_desc_t', 'MIR_op_t',
                          'size_t', 'MIR_type_t', 'va_list', 'MIR_reg_t', 'MIR_insn_code_t', 'MIR_func_t', 'MIR_proto_t'}
 
@@ -52,6 +55,29 @@ class Exec:
         if t is None:
             raise Unsupported('unknown MIR_val_t member ' + m)
         return ctype_of(t)
+
+    def state_var(self, name):
+        """integer variables declared at the top of eval(): they live across instructions (overflow state)"""
+        if self.statevars is None:
+            self.statevars = {}
+            r = find_function(self.src, 'eval')
+            head = r[1] if r else ''
+            m = re.search(r'\b(?:L_\w+\s*:(?!:)|switch\s*\()', head)
+            head = head[:m.start()] if m else head[:4000]
+            k = 10
+            for chunk in head.split(';'):
+                try:
+                    st = parse_stmts(chunk.strip() + ';', self.typedefs)
+                except Unsupported:
+                    continue
+                for d in st:
+                    if d[0] != 'decl':
+                        continue
+                    for name_, (base, nptr), init in d[1]:
+                        if nptr == 0 and base in INT_TYPES and INT_TYPES[base] in SMT.TY and name_ not in ('signed_overflow_p', 'unsigned_overflow_p'):
+                            self.statevars[name_] = (k, INT_TYPES[base])
+                            k += 1
+        return self.statevars.get(name)
 
     def func(self, name):
         if name not in self.funcs:
@@ -86,6 +112,9 @@ class Exec:
                 return ('rv', ('EVar', 9, 'CI32'))
             if n in ('bp', 'code', 'pc', 'ops'):
                 return ('opsptr', 0) if n == 'ops' else (n,)
+            sv = self.state_var(n)
+            if sv is not None:
+                return ('rv', self.state[n]) if n in self.state else ('rv', ('EVar', sv[0], sv[1]))
             raise Unsupported('unknown identifier ' + n)
         if k == 'cast':
             (base, nptr), inner = e[1], e[2]
@@ -113,6 +142,12 @@ class Exec:
             if a[0] == 'pc':
                 return ('pcarith',)
             b = self.eval(e[3], fr)
+            if e[1] in ('&&', '||'):
+                # exact C meaning (short circuit, int result) in the ?: of CExpr; only the SMT equivalence with a
+                # canonical row can accept such a row, the Coq recognisers know no such shape
+                one, zero = ('EConst', 1, 'CI32'), ('EConst', 0, 'CI32')
+                bb = ('ECond', self.rv(b), one, zero)
+                return ('rv', ('ECond', self.rv(a), bb, zero) if e[1] == '&&' else ('ECond', self.rv(a), one, bb))
             if e[1] not in BINOPS:
                 raise Unsupported('operator ' + e[1])
             return ('rv', ('EBin', BINOPS[e[1]], self.rv(a), self.rv(b)))
@@ -201,6 +236,13 @@ class Exec:
                 return v
             if n in ('signed_overflow_p', 'unsigned_overflow_p'):
                 self.effect(('flag', n[0], self.rv(v)))
+                return v
+            sv = self.state_var(n)
+            if sv is not None:
+                if self.cond is not None:
+                    raise Unsupported('conditional assignment to ' + n)
+                v = ('rv', conv(sv[1], self.rv(v)))
+                self.state[n] = v[1]
                 return v
             raise Unsupported('assignment to ' + n)
         if lhs[0] == 'deref':
@@ -300,6 +342,82 @@ def classify(effects):
     raise Unsupported('effects %r' % (effects,))
 
 
+OVF_OPS = ['ADDO', 'ADDOS', 'SUBO', 'SUBOS', 'MULO', 'MULOS', 'UMULO', 'UMULOS']
+OVF_BRANCHES = {'BO': ('s', False), 'BNO': ('s', True), 'UBO': ('u', False), 'UBNO': ('u', True)}
+
+
+def mentions_state(e):
+    if not isinstance(e, tuple):
+        return False
+    if e and e[0] == 'EVar' and e[1] >= 10:
+        return True
+    return any(mentions_state(x) for x in e)
+
+
+def canonicalise(rows, gen, statevars, canon):
+    """rows the Coq recognisers would not know but that are, for ALL operand values (SMT, QF_BV), the canonical row:
+    the canonical row is emitted instead.  gen: overflow opcode -> (result type, result expr, {state variable: new value})
+    for cases that keep the overflow state in other variables than the two classic flags; such an instruction and the
+    four overflow branches are tied TOGETHER: branch condition after the instruction's state update == canonical flag.
+    -> (rows, notes, hints)"""
+    out = dict(rows)
+    notes, hints = [], []
+    if gen or any(mentions_state(out.get(b)) for b in OVF_BRANCHES):
+        ok = all(x in canon for x in OVF_OPS + list(OVF_BRANCHES)) and all(x in gen for x in OVF_OPS)
+        why = 'overflow state kept in a form the translator does not understand'
+        try:
+            for x in OVF_OPS:
+                if not ok:
+                    break
+                t, e, upd = gen[x]
+                c = canon[x]
+                if c[0] != 'SOvf' or t != c[1]:
+                    ok = False
+                    break
+                enc = SMT.Enc()
+                goals = [SMT.same_value(enc, t, e, c[2])]
+                m = {statevars[n][0]: ex for n, ex in upd.items()}
+                for b, (which, neg) in OVF_BRANCHES.items():
+                    cf = c[3] if which == 's' else c[4]
+                    if cf is None:
+                        continue          # the instruction does not define this flag (MIR.md): nothing to show
+                    bst = out.get(b)
+                    if not bst or bst[0] != 'SBranch':
+                        ok = False
+                        break
+                    goals.append(SMT.same_truth(enc, SMT.subst(bst[1], m), cf, negate=neg))
+                for g in goals:
+                    if not ok:
+                        break
+                    r, model = SMT.query(enc, g)
+                    if r == 'sat':
+                        hints.append(dict(op=x, args=[model.get(1, 0), model.get(2, 0)]))
+                        why = 'overflow state update / branch differs from the canonical flag for some operands'
+                    if r != 'unsat':
+                        ok = False
+        except SMT.NoSmt as ex:
+            ok = False
+            why = str(ex)
+        if ok:
+            for x in OVF_OPS + list(OVF_BRANCHES):
+                out[x] = canon[x]
+            notes.append('overflow instructions + BO/BNO/UBO/UBNO (state in %s)' % ', '.join(sorted(set(n for x in gen.values() for n in x[2]))))
+        else:
+            for x in gen:
+                out[x] = ('SUnknown', why)
+    for op, st in list(out.items()):
+        c = canon.get(op)
+        if c is None or st == c or st[0] not in ('SAssign', 'SBranch', 'SOvf') or mentions_state(st):
+            continue
+        r, info = SMT.equivalent(st, c)
+        if r == 'equiv':
+            out[op] = c
+            notes.append(op)
+        elif r == 'different' and info:
+            hints.append(dict(op=op, args=[info.get(1, 0), info.get(2, 0)]))
+    return [(op, out[op]) for op, _ in rows], notes, hints
+
+
 def cases(src):
     """[(label name, text)] of the instruction cases of eval()"""
     r = find_function(src, 'eval')
@@ -315,7 +433,7 @@ def cases(src):
     return out
 
 
-def translate(repo):
+def translate(repo, canon=None):
     src = preprocess(repo)
     members = val_members(src)
     for k, t in MEMBER_TYPES_EXPECT.items():
@@ -326,6 +444,7 @@ def translate(repo):
     required = set(o for o in ops[:lim] if not o.startswith('ADDR'))
     rows, aux = [], []
     seen = set()
+    gen, statevars = {}, {}
     for name, text in cases(src):
         is_op = name.startswith('MIR_') and name[4:] in ops
         is_aux = re.match(r'^IC_(LD|ST)(I8|U8|I16|U16|I32|U32|I64|F|D|LD)$', name) is not None
@@ -338,7 +457,18 @@ def translate(repo):
             r = ex.block(stmts, {})
             if r != ('end',):
                 raise Unsupported('case does not end with END_INSN (falls through)')
-            st = classify(ex.effects)
+            if ex.state:
+                # the case updates interpreter state variables (an overflow state in another form than the two flags)
+                sets = [e for e in ex.effects if e[0] == 'set']
+                if len(sets) != 1 or len(ex.effects) != 1 or sets[0][1] != 0 or not is_op:
+                    raise Unsupported('state update together with effects %r' % (ex.effects,))
+                gen[name[4:]] = (sets[0][2], sets[0][3], dict(ex.state))
+                statevars.update(ex.statevars)
+                st = ('SUnknown', 'overflow state in %s' % ', '.join(sorted(ex.state)))
+            else:
+                st = classify(ex.effects)
+                if mentions_state(st):
+                    statevars.update(ex.statevars)
         except Unsupported as e:
             st = ('SUnknown', '%s: %s' % (e, text[:80]))
         except (KeyError, IndexError, ValueError, TypeError) as e:
@@ -348,7 +478,10 @@ def translate(repo):
             seen.add(name[4:])
         else:
             aux.append((name, st))
-    return rows, aux
+    notes, hints = [], []
+    if canon is not None:
+        rows, notes, hints = canonicalise(rows, gen, statevars, canon)
+    return rows, aux, notes, hints
 
 
 def vlib_opcodes(repo):
@@ -367,9 +500,25 @@ def emit(rows, aux):
     return s
 
 
+CANON = 'c02_canon_interp.json'
+
+
+def snapshot():
+    """(maintainer) record the rows of the current tree, which the Coq recognisers accept, as the canonical rows"""
+    import json
+    rows, aux, _, _ = translate(vlib.REPO)
+    p = os.path.join(vlib.VERIF, 'corpus', CANON)
+    json.dump({o: st for o, st in rows if st[0] != 'SUnknown'}, open(p, 'w'), indent=0)
+    print('wrote', p)
+
+
 def main():
     repo = vlib.REPO
-    rows, aux = translate(repo)
+    if '--snapshot' in sys.argv:
+        return snapshot()
+    rows, aux, notes, hints = translate(repo, SMT.load_canon(CANON))
+    SMT.write_hints('interp', hints)
+    SMT.write_notes('interp', notes)
     out = os.path.join(vlib.COQDIR, 'gen', 'InterpTable.v')
     os.makedirs(os.path.dirname(out), exist_ok=True)
     txt = emit(rows, aux)
@@ -378,8 +527,9 @@ def main():
         open(out + '.tmp%d' % os.getpid(), 'w').write(txt)
         os.rename(out + '.tmp%d' % os.getpid(), out)
     unk = [o for o, st in rows + aux if st[0] == 'SUnknown']
-    print('InterpTable: %d opcode rows, %d aux rows, %d unknown%s' % (len(rows), len(aux), len(unk),
-                                                                      (': ' + ' '.join(unk[:8])) if unk else ''))
+    print('InterpTable: %d opcode rows, %d aux rows, %d unknown%s%s' % (len(rows), len(aux), len(unk),
+                                                                        (': ' + ' '.join(unk[:8])) if unk else '',
+                                                                        ('; tied by SMT equivalence with the canonical row: ' + '; '.join(notes)) if notes else ''))
 
 
 if __name__ == '__main__':
